@@ -2,7 +2,7 @@
    (1) RotateCopy of an operand that is not mirror-symmetric about the sector axis is discontinuous. *)
 From Coq Require Import Reals Lra Lia List Bool ZArith Psatz.
 From Sdfx Require Import Num.Ops Num.RInst Geo.Vec Geo.Box Geo.BoxR Geo.NormR Geo.MinMaxR Geo.Mat
-  Sdf.Union2 Sdf.Shape Sdf.ShapeR Sdf.LipR Sdf.LipTreeR Sdf.RotCopyR.
+  Sdf.Union2 Sdf.Shape Sdf.ShapeR Sdf.LipR Sdf.LipTreeR Sdf.RotCopyR Sdf.ExactR.
 Import ListNotations.
 Open Scope R_scope.
 
@@ -77,4 +77,64 @@ Proof.
   assert (Ed : dist2 (mkV2 0 1) (mkV2 1 1) = 1).
   { unfold dist2, len2, sub2; cbn [vx vy]. replace ((0 - 1) * (0 - 1) + (1 - 1) * (1 - 1)) with 1 by ring. apply sqrt_1. }
   rewrite Ed. replace (-1 - 1) with (- (2)) by ring. rewrite Rabs_Ropp, Rabs_pos_eq; lra.
+Qed.
+
+(* (2) "Offsetting preserves exactness" is false for non-convex operands.  Witness: the two walls of a
+   slot, S = { 1/2 < |x| < 3/2 } (two parallel strips; the slot |x| < 1/2 has half width 1/2),
+   f(p) = ||x| - 1| - 1/2 is its exact signed distance.  Offset by r = 3/5 > 1/2: the slot closes,
+   f - r = -1/10 at the slot centre, but the nearest point of the offset surface { f = r } is 21/10 away
+   (only the bound |f - r| <= distance survives, which is the 1-Lipschitz property). *)
+Definition walls (p : RV2) : R := Rabs (Rabs (vx p) - 1) - 1 / 2.
+Definition walls_in (p : RV2) : Prop := 1 / 2 < Rabs (vx p) < 3 / 2.
+Definition walls_bd (q : RV2) : Prop := Rabs (vx q) = 1 / 2 \/ Rabs (vx q) = 3 / 2.
+
+Lemma walls_lip : lip1_2 walls.
+Proof.
+  intros p q. unfold walls. eapply Rle_trans; [|apply dist2_x].
+  set (a := vx p) in *. set (b := vx q) in *.
+  unfold Rabs. repeat destruct (Rcase_abs _); lra.
+Qed.
+
+Lemma dist2_same_y (x1 x2 y : R) : dist2 (mkV2 x1 y) (mkV2 x2 y) = Rabs (x1 - x2).
+Proof.
+  unfold dist2, len2, sub2. cbn [vx vy]. replace ((x1 - x2) * (x1 - x2) + (y - y) * (y - y)) with (Rsqr (x1 - x2)) by (unfold Rsqr; ring).
+  apply sqrt_Rsqr_abs.
+Qed.
+
+Lemma walls_is_sdf : is_sdf2 walls walls_in walls_bd.
+Proof.
+  intros p. split; [|split].
+  - unfold walls, walls_in. set (a := vx p). unfold Rabs. repeat destruct (Rcase_abs _); split; intros; lra.
+  - intros q Hq. assert (Z : walls q = 0).
+    { unfold walls. destruct Hq as [Hq|Hq]; rewrite Hq; unfold Rabs; destruct (Rcase_abs _); lra. }
+    pose proof (walls_lip p q) as L. rewrite Z, Rminus_0_r in L. exact L.
+  - destruct p as [x y]. unfold walls, walls_bd. cbn [vx vy].
+    destruct (Rle_dec (Rabs x) 1) as [H1|H1].
+    + exists (mkV2 (sg x * (1 / 2)) y). cbn [vx]. split; [left; apply abs_sg_mul; lra|].
+      rewrite dist2_same_y. rewrite <- (sg_abs x) at 1.
+      replace (sg x * Rabs x - sg x * (1 / 2)) with (sg x * (Rabs x - 1 / 2)) by ring.
+      rewrite Rabs_mult. replace (Rabs (sg x)) with 1 by (unfold sg; destruct (Rle_dec 0 x); unfold Rabs; destruct (Rcase_abs _); lra).
+      pose proof (Rabs_pos x). set (a := Rabs x) in *. unfold Rabs. repeat destruct (Rcase_abs _); lra.
+    + exists (mkV2 (sg x * (3 / 2)) y). cbn [vx]. split; [right; apply abs_sg_mul; lra|].
+      rewrite dist2_same_y. rewrite <- (sg_abs x) at 1.
+      replace (sg x * Rabs x - sg x * (3 / 2)) with (sg x * (Rabs x - 3 / 2)) by ring.
+      rewrite Rabs_mult. replace (Rabs (sg x)) with 1 by (unfold sg; destruct (Rle_dec 0 x); unfold Rabs; destruct (Rcase_abs _); lra).
+      pose proof (Rabs_pos x). set (a := Rabs x) in *. unfold Rabs. repeat destruct (Rcase_abs _); lra.
+Qed.
+
+Theorem offset_nonconvex_refuted :
+  exists (f : RV2 -> R) (S B : RV2 -> Prop) (r : R) (c : RV2),
+    is_sdf2 f S B /\ lip1_2 f /\ 0 <= r /\
+    f c - r = - (1 / 10) /\ (forall q, f q = r -> 21 / 10 <= dist2 c q) /\
+    ~ is_sdf2 (fun p => f p - r) (fun p => f p < r) (fun q => f q = r).
+Proof.
+  exists walls, walls_in, walls_bd, (3 / 5), (mkV2 0 0).
+  assert (Hc : walls (mkV2 0 0) - 3 / 5 = - (1 / 10)).
+  { unfold walls. cbn [vx]. rewrite Rabs_R0. replace (0 - 1) with (- (1)) by ring. rewrite Rabs_Ropp, Rabs_pos_eq; lra. }
+  assert (Hfar : forall q, walls q = 3 / 5 -> 21 / 10 <= dist2 (mkV2 0 0) q).
+  { intros q Hq. eapply Rle_trans; [|apply dist2_x]. cbn [vx]. unfold walls in Hq. set (a := vx q) in *.
+    replace (0 - a) with (- a) by ring. rewrite Rabs_Ropp. unfold Rabs in *. repeat destruct (Rcase_abs _); lra. }
+  split; [exact walls_is_sdf|]. split; [exact walls_lip|]. split; [lra|]. split; [exact Hc|]. split; [exact Hfar|].
+  intros H. destruct (H (mkV2 0 0)) as (_ & _ & (q & Hq & Dq)). rewrite Hc in Dq.
+  rewrite Rabs_Ropp, Rabs_pos_eq in Dq by lra. pose proof (Hfar q Hq). lra.
 Qed.
